@@ -67,7 +67,7 @@ META = {
              "subquery_is_window_of_results (f over the window of the operand's RESULTS with the subquery's own range), the C27-r3-2 mutation is "
              "the variant evalChainEarlyRange with the witness early_range_violates. Earlier rounds: over_time_is_definition(_general), "
              "pushed_query_is_aggregate, rule0..3_expression, quantile_def, topk_def, groupKey_dedup, binApply_*. "
-             "Still partial: a closed form of the window edge L for every two-LOD grid is not derived (hypothesis, satisfied by decide per grid); "
+             "Last round: for the not-strict over-time functions (avg/min/max/last) the window edge is derived from the grid and the range on every non-decreasing grid (Lgrid, over_time_is_definition_any_grid), two-LOD grids need no per-grid check. Still partial: for the strict functions (sum/count/stdvar/stddev/quantile) on non-uniform grids the edge L remains a hypothesis of over_time_is_definition_general (uniform grids: proved); "
              "strict functions with a range narrower than a coarse bucket are excluded by hypothesis; count-of-count and avg-of-avg compositions "
              "are not pooled values and are outside the exact push-down statements; stddev on non-squares, group order, the weight function of topk "
              "are correspondence-only. Trusted: Lean kernel; the Handler stub (storage contract; it calls the real tsValues.merge/value); exact "
